@@ -569,7 +569,8 @@ pub fn string_split(
 
     let s = interp.to_js_string(&this);
     let separator_arg = args.first().cloned();
-    let limit = args.get(1).map(|v| v.to_number() as usize);
+    // limit: ToUint32, 2^32 - 1 when it is not given (an explicit undefined included)
+    let limit = super::given(args, 1).map(|v| crate::value::to_uint32(v.to_number()) as usize);
 
     let parts: Vec<JsValue> = match separator_arg {
         // Per ECMAScript spec: if separator is undefined, return array containing original string
